@@ -29,7 +29,7 @@ against the checks with `lib/eval_seeded.py` (apply to /repo, run the owning qui
 A miss was answered by more workload/observability, never by a stricter oracle; the strengthened
 check was then re-run on the unchanged tree at several seeds. Round a: one change per property;
 round b: a second change per property, with the first one declared "already taken"; round c: a
-third one, both earlier ideas declared taken; round d: a fourth, three ideas declared taken; round e: a fifth; round f: a sixth; round g: a seventh (run without reading the descriptions first: 9 of 20 missed); round h: an eighth (descriptions read while the first runs were already going; 8 of 20 missed by the checks as they were, one more — C05-h — would have been and was strengthened before its run). From round d on I read the
+third one, both earlier ideas declared taken; round d: a fourth, three ideas declared taken; round e: a fifth; round f: a sixth; round g: a seventh (run without reading the descriptions first: 9 of 20 missed); round h: an eighth (descriptions read while the first runs were already going; 8 of 20 missed by the checks as they were, one more — C05-h — would have been and was strengthened before its run); round i: a ninth change for eight properties only (C02, C03, C04, C06, C10, C12, C16, C19; run without reading the descriptions first: 6 of 8 caught as they were). From round d on I read the
 description of a change before running the checks against it and, where I could see that no workload
 reached it, strengthened first; those rows say "strengthened ... before the first run". After every round of strengthening all kept changes
 are re-run (`lib/eval_all_seeded.sh`) to make sure nothing that was caught is lost again; the last
